@@ -624,3 +624,64 @@ class NamedLatticeCell:
 
 register(Obligation(name="C15.KPoints.cell_of_named_lattice", prop=PROP, engine="B", bounded=True, functions=["eminus.kpoints:KPoints.__init__", "eminus.kpoints:kpoint_convert"], run=NamedLatticeCell(),
                     doc="BOUNDED (every lattice name x five cell sizes): KPoints(lattice, a) describes the cell a * LATTICE_VECTORS[lattice]; k . a_i = 2 pi kappa_i for that cell"))
+
+
+# -------------------------------------------------------------------------------------------------
+# the tables: named special points belong to the lattice vectors they are used with
+# -------------------------------------------------------------------------------------------------
+
+# number of reciprocal-lattice points at the smallest distance from each named point (1: inside the zone; 2: centre of a zone face; 3 / 4 / 6 / 8: edge
+# or corner) - textbook values for the simple cubic, fcc, bcc and hexagonal Brillouin zones, written down independently of the package's tables
+ZONE_CHARACTER = {"sc": {"G": 1, "X": 2, "M": 4, "R": 8}, "fcc": {"G": 1, "X": 2, "L": 2, "W": 4, "K": 3, "U": 3}, "bcc": {"G": 1, "N": 2, "P": 4, "H": 6},
+                  "hexagonal": {"G": 1, "A": 2, "M": 2, "L": 4, "K": 3, "H": 6}}
+
+
+class SpecialPointsTable:
+    """EXHAUSTIVE over the (finite) tables LATTICE_VECTORS / SPECIAL_POINTS of the tree under check: in the reciprocal lattice of the package's own lattice
+    vectors every named special point has the textbook position on the Brillouin-zone surface (number of equidistant nearest reciprocal-lattice points),
+    for every lattice that has both tables; also through KPoints(lattice) and a scaled cell."""
+
+    def problems(self):
+        import itertools
+
+        import eminus
+        from eminus.data import LATTICE_VECTORS, SPECIAL_POINTS
+        from eminus.kpoints import KPoints
+
+        eminus.config.backend = "numpy"
+        bad, n = [], 0
+        for lat, want in ZONE_CHARACTER.items():
+            if lat not in LATTICE_VECTORS or lat not in SPECIAL_POINTS:
+                bad.append(dict(lattice=lat, problem="table missing"))
+                continue
+            for scale, cell in ((1.0, np.asarray(LATTICE_VECTORS[lat], float)), (7.5, np.asarray(KPoints(lat, 7.5).a, float))):
+                b = 2 * np.pi * np.linalg.inv(cell).T
+                Gs = np.array(list(itertools.product(range(-3, 4), repeat=3))) @ b
+                for nm, cnt in want.items():
+                    n += 1
+                    if nm not in SPECIAL_POINTS[lat]:
+                        bad.append(dict(lattice=lat, point=nm, problem="name missing"))
+                        continue
+                    k = np.asarray(SPECIAL_POINTS[lat][nm], float) @ b
+                    d = np.linalg.norm(Gs - k, axis=1)
+                    got = int(np.sum(d < d.min() + 1e-9 * np.linalg.norm(b[0])))
+                    if got != cnt:
+                        bad.append(dict(lattice=lat, cell_scale=scale, point=nm, equidistant_nearest_reciprocal_lattice_points=got, textbook=cnt))
+        return bad, n
+
+    def __call__(self, ob, tier, seed):
+        try:
+            bad, n = self.problems()
+        except Exception as e:  # noqa: BLE001
+            bad, n = [dict(raised=f"{type(e).__name__}: {e}")], 0
+        if bad:
+            return Result(REFUTED, backend="exhaustive-native", witness=bad[0], replayed=True, replay_info=dict(failing=bad[:6]), detail=f"special-point table vs lattice vectors: {bad[0]}")
+        return Result(DISCHARGED, backend="exhaustive-native", stats=dict(points=n), detail=f"{n} named points of 4 lattices")
+
+    def replay(self, wit):
+        bad, n = self.problems()
+        return bool(bad), dict(failing=bad[:6])
+
+
+register(Obligation(name="C15.special_points.belong_to_the_lattice_vectors", prop=PROP, engine="X", functions=["eminus.data:LATTICE_VECTORS", "eminus.data:SPECIAL_POINTS", "eminus.kpoints:KPoints.__init__"],
+                    run=SpecialPointsTable(), doc="exhaustive over the finite tables: every named special point sits at its textbook place on the Brillouin-zone surface of the package's lattice vectors"))
